@@ -421,8 +421,58 @@ impl From<&Parameter> for HirField {
 }
 
 pub fn write_file(path: &Path, text: &str) -> io::Result<()> {
+    #[cfg(libninja_verif)]
+    verif_hook::before_write(path, text);
     let mut f = File::create(path)?;
     f.write_all(text.as_bytes())?;
     println!("{}: Wrote file.", path.display());
     Ok(())
+}
+
+/// Verification hook (only with `--cfg libninja_verif`): simulates a crash of the generator.
+/// `LIBNINJA_VERIF_CRASH=<k>:<n>` makes the k-th call (0-based) of `write_file` create the file,
+/// write only the first n bytes of its new content and abort the process; `<k>:pre` aborts
+/// before the file is touched; `rm:<j>` aborts cleanup before its j-th removal (0-based).
+#[cfg(libninja_verif)]
+pub mod verif_hook {
+    use std::fs::File;
+    use std::io::Write;
+    use std::path::Path;
+    use std::sync::atomic::{AtomicUsize, Ordering};
+
+    static WRITES: AtomicUsize = AtomicUsize::new(0);
+    static REMOVES: AtomicUsize = AtomicUsize::new(0);
+
+    fn plan() -> Option<(String, String)> {
+        let v = std::env::var("LIBNINJA_VERIF_CRASH").ok()?;
+        let (k, n) = v.split_once(':')?;
+        Some((k.to_string(), n.to_string()))
+    }
+
+    pub fn before_write(path: &Path, text: &str) {
+        let Some((k, n)) = plan() else { return };
+        let Ok(k) = k.parse::<usize>() else { return };
+        if WRITES.fetch_add(1, Ordering::SeqCst) != k {
+            return;
+        }
+        if let Ok(n) = n.parse::<usize>() {
+            if let Ok(mut f) = File::create(path) {
+                let n = n.min(text.len());
+                let _ = f.write_all(&text.as_bytes()[..n]);
+                let _ = f.sync_all();
+            }
+        }
+        std::process::abort();
+    }
+
+    pub fn before_remove() {
+        let Some((k, j)) = plan() else { return };
+        if k != "rm" {
+            return;
+        }
+        let Ok(j) = j.parse::<usize>() else { return };
+        if REMOVES.fetch_add(1, Ordering::SeqCst) == j {
+            std::process::abort();
+        }
+    }
 }
